@@ -25,9 +25,25 @@ CartOrigins == {<<13, 257>>, <<120, 55>>, <<903, 911>>}            \* km
 CartXs      == {-100, 0, 100, 255, 500, 755}                      \* km along the section
 SphOrigins  == {<<13, 257>>, <<120, 55>>}                          \* in 1/100 degree
 SphAngles   == {0, 100, 250, 500, 755}                             \* in 1/100 degree along the section
-DepthsKm    == {20, 50, 130}
+DepthsKm    == {0, 20, 50, 130}
 
-Sections == [sph : {FALSE}, o : CartOrigins, d : Dirs] \cup [sph : {TRUE}, o : SphOrigins, d : Dirs]
+Sections == [sph : {FALSE}, o : CartOrigins, d : Dirs, force : BOOLEAN] \cup [sph : {TRUE}, o : SphOrigins, d : Dirs, force : BOOLEAN]
+
+(* The 2D interface is a family of entry points, not one function: the batched evaluator, the single-property
+   conveniences of World (temperature with and without the deprecated gravity argument, composition, grains), and
+   the C and C++ wrappers around them.  Handle 1 is the native World, 2 the C API, 3 the C++ wrapper class. *)
+EntryPoints == << [h |-> 1, via |-> "temperature",   props |-> <<PT>>],
+                  [h |-> 1, via |-> "temperature_g", props |-> <<PT>>],
+                  [h |-> 1, via |-> "composition",   props |-> <<PC(0)>>],
+                  [h |-> 1, via |-> "composition",   props |-> <<PC(5)>>],
+                  [h |-> 1, via |-> "grains",        props |-> <<PG(0, 2)>>],
+                  [h |-> 2, via |-> "props",         props |-> <<PT, PC(1), PTag>>],
+                  [h |-> 2, via |-> "temperature",   props |-> <<PT>>],
+                  [h |-> 2, via |-> "composition",   props |-> <<PC(5)>>],
+                  [h |-> 3, via |-> "temperature",   props |-> <<PT>>],
+                  [h |-> 3, via |-> "temperature_g", props |-> <<PT>>],
+                  [h |-> 3, via |-> "composition",   props |-> <<PC(0)>>] >>
+Apis == <<"native", "c", "cpp">>
 
 (* exact mapped surface position, as rationals: Cartesian in metres, spherical in degrees *)
 MapX(s, x) == IF s.sph THEN Rat(s.o[1] * s.d[3] + x * s.d[1], 100 * s.d[3])
@@ -48,10 +64,11 @@ ProbesOffBoundaries(s) ==
      /\ \A l \in YLines : FarFrom(s.o[2] * s.d[3] + x * s.d[2], s.d[3], l)
 
 Doc(s) == World(IF s.sph THEN Spherical("begin segment") ELSE Cartesian, KSFeatures(s.sph))
+          @@ Opt(s.force, ("force surface temperature" :> TRUE) @@ ("surface temperature" :> 293))
           @@ ("cross section" :> IF s.sph
                 THEN << <<Rat(s.o[1], 100), Rat(s.o[2], 100)>>, <<Rat(s.o[1] + 100 * s.d[1], 100), Rat(s.o[2] + 100 * s.d[2], 100)>> >>
                 ELSE << <<s.o[1] * Km, s.o[2] * Km>>, <<(s.o[1] + 100 * s.d[1]) * Km, (s.o[2] + 100 * s.d[2]) * Km>> >>)
-DocNoSection == World(Cartesian, KSFeatures(FALSE))
+DocNoSection(force) == World(Cartesian, KSFeatures(FALSE)) @@ Opt(force, ("force surface temperature" :> TRUE) @@ ("surface temperature" :> 293))
 
 Singles == <<PT, PC(0), PC(5), PG(0, 2), PTag, PV>>
 Lists == {<<Singles[i]>> : i \in 1..6} \cup {<<Singles[i], Singles[j]>> : i, j \in 1..6}
@@ -78,22 +95,40 @@ Pair(s, x, dk, props) ==
       p |-> IF s.sph THEN <<Mul(R - d, Cos(Rad(Rat(x, 100)))), Mul(R - d, Sin(Rad(Rat(x, 100))))>> ELSE <<x * Km, H - d>>,
       expect |-> <<[k |-> "len", n |-> Total(props)], [k |-> "size"]>> \o AllBlocks(s, props, 1)] >>
 
-Behaviour(s) ==
-  LET qs == SetToSeq(Along(s) \X DepthsKm \X Lists) IN
-  [id |-> <<"section", s>>, labels |-> <<"section", IF s.sph THEN "spherical" ELSE "cartesian">>,
-   steps |-> <<[op |-> "create", h |-> 1, wb |-> Doc(s)]>>
-             \o FlattenSeq([i \in 1..Len(qs) |-> Pair(s, qs[i][1], qs[i][2], qs[i][3])])]
+(* the same pair through one of the single-property entry points *)
+ViaPair(s, x, dk, e) ==
+  LET d == dk * Km IN
+  << (IF s.sph THEN [sph |-> <<R - d, MapX(s, x), MapY(s, x)>>] ELSE [p |-> <<MapX(s, x), MapY(s, x), H - d>>])
+       @@ [op |-> "q", h |-> e.h, via |-> e.via, dim |-> 3, depth |-> d, props |-> e.props, save |-> "m"],
+     [op |-> "q", h |-> e.h, via |-> e.via, dim |-> 2, depth |-> d, props |-> e.props,
+      p |-> IF s.sph THEN <<Mul(R - d, Cos(Rad(Rat(x, 100)))), Mul(R - d, Sin(Rad(Rat(x, 100))))>> ELSE <<x * Km, H - d>>,
+      expect |-> <<[k |-> "len", n |-> Total(e.props)],
+                   [k |-> "near", at |-> 0, n |-> Total(e.props), ref |-> "m", refat |-> 0, rel |-> Dec(1, -9), abs |-> Dec(1, -9)]>>] >>
 
-Refusal ==
-  [id |-> "no-section", labels |-> <<"refusal">>,
-   steps |-> <<[op |-> "create", h |-> 1, wb |-> DocNoSection]>>
-             \o [i \in 1..6 |-> [op |-> "q", h |-> 1, dim |-> 2, depth |-> 50 * Km, props |-> <<Singles[i]>>,
-                                 p |-> <<100 * Km, H - 50 * Km>>, expect |-> <<[k |-> "throws"]>>]]]
+Behaviour(s) ==
+  LET qs == SetToSeq(Along(s) \X DepthsKm \X Lists)
+      es == SetToSeq(Along(s) \X DepthsKm \X (1..Len(EntryPoints))) IN
+  [id |-> <<"section", s>>, labels |-> <<"section", IF s.sph THEN "spherical" ELSE "cartesian", IF s.force THEN "forced" ELSE "unforced">>,
+   steps |-> [a \in 1..3 |-> [op |-> "create", h |-> a, api |-> Apis[a], wb |-> Doc(s)]]
+             \o FlattenSeq([i \in 1..Len(qs) |-> Pair(s, qs[i][1], qs[i][2], qs[i][3])])
+             \o FlattenSeq([i \in 1..Len(es) |-> ViaPair(s, es[i][1], es[i][2], EntryPoints[es[i][3]])])]
+
+(* without a cross section every 2D entry point refuses, whatever the depth and the surface-temperature setting *)
+Refusal(force) ==
+  LET ds == <<0, 50 * Km>> IN
+  [id |-> <<"no-section", force>>, labels |-> <<"refusal", IF force THEN "forced" ELSE "unforced">>,
+   steps |-> [a \in 1..3 |-> [op |-> "create", h |-> a, api |-> Apis[a], wb |-> DocNoSection(force)]]
+             \o FlattenSeq([k \in 1..2 |->
+                   [i \in 1..6 |-> [op |-> "q", h |-> 1, dim |-> 2, depth |-> ds[k], props |-> <<Singles[i]>>,
+                                    p |-> <<100 * Km, H - ds[k]>>, expect |-> <<[k |-> "throws"]>>]]
+                   \o [i \in 1..Len(EntryPoints) |->
+                         [op |-> "q", h |-> EntryPoints[i].h, via |-> EntryPoints[i].via, dim |-> 2, depth |-> ds[k],
+                          props |-> EntryPoints[i].props, p |-> <<100 * Km, H - ds[k]>>, expect |-> <<[k |-> "throws"]>>]]])]
 
 VARIABLE sec
 Init == sec \in Sections
 Next == UNCHANGED sec
 SpecOK == DirUnit(sec.d) /\ ProbesOffBoundaries(sec)
 Emit == PrintT(<<"B", ToJson(Behaviour(sec))>>)
-EmitRefusal == PrintT(<<"B", ToJson(Refusal)>>)
+EmitRefusal == PrintT(<<"B", ToJson(Refusal(sec.force))>>)
 =============================================================================
